@@ -279,6 +279,61 @@ def run_main_slice(prog, rate_some, rate):
     return hits, ends, dict(slice_locals=sorted(L), mutable_borrows=borrows, ex=ex, fn=fn, steps=steps, option_type=fty)
 
 
+def option_parser_constraint(prog, rate, some):
+    """a float-typed option gets its range check in a clap `value_parser` function of the crate (the slice of main starts after the
+    command line has been parsed).  That function is found through the `Arg::value_parser::<fn ... {NAME}>` call that follows
+    `Arg::new("max_drift_rate")` in the derived clap code and executed from the library's MIR with `str::parse::<f32|f64>` as an
+    environment function returning an arbitrary float: a Some(v) in the parsed command line is the value of one of its Ok paths.
+    returns (z3 constraint, side constraints, description) or None when there is no such function"""
+    from mirsym.values import FLin
+    name = None
+    for fname, lst in prog.fns.items():
+        for f in lst:
+            order = sorted(f.blocks, key=lambda b: int(b[2:]) if b[2:].isdigit() else 10 ** 6)
+            found = False
+            for bb in order:
+                t = f.blocks[bb][-1]
+                if re.search(r'Arg::new::<&str>\(const "max_drift_rate"\)', t):
+                    found = True; continue
+                if found and re.search(r'Arg::new::<&str>\(const "', t):
+                    found = False
+                if found:
+                    m = re.search(r'Arg::value_parser::<.*\{([\w:]+)\}>\(', t)
+                    if m:
+                        name = m.group(1); break
+            if name:
+                break
+        if name:
+            break
+    if name is None:
+        return None
+    from .daemon_extract import load_dlib_program
+    dprog, _w = load_dlib_program()
+    cands = dprog.resolve(name.split('::')[-1], 1)
+    if len(cands) != 1:
+        raise EngineError('value parser %s of --max-drift-rate: %d candidates' % (name, len(cands)))
+    parse_ok = z3.Bool('option_string_parses')
+
+    def h_parse(ex, st, callee, args, fn):
+        return Enum(z3.If(parse_ok, z3.IntVal(0), z3.IntVal(1)), {'Ok': Struct([FLin(rate if z3.is_real(rate) else z3.ToReal(rate))]), 'Err': Struct([Opaque('ParseFloatError')])})
+    env = [(r'<impl str>::parse::<f(32|64)>$', h_parse), (r'<impl str>::(trim|trim_start|trim_end)$', lambda ex, st, c, a, f: a[0]),
+           (r'(^|::)(must_use)(::<.*>)?$', lambda ex, st, c, a, f: a[0])]
+    ex = Exec(dprog, env=env, opaque_calls=[r'Argument(::<.*>)?::new_\w+', r'Arguments(::<.*>)?::new', r'(^|::)format$', r'fmt::format'])
+    outs = ex.run(cands[0], [Opaque('option string')], State())
+    oks = []
+    for o in outs:
+        if o.kind != 'return':
+            continue
+        v = o.value
+        if isinstance(v, Enum) and 'Ok' in v.p:
+            d = v.disc()
+            val = v.p['Ok'].f[0]
+            oks.append(z3.And(o.state.pcond(), d == 0, ex.to_lin(val) == (rate if z3.is_real(rate) else z3.ToReal(rate))))
+    if not oks:
+        raise EngineError('value parser %s has no Ok path' % name)
+    return z3.Implies(some, z3.Or(oks)), list(ex.side), '%s (%d return paths, %d accepting)' % (name, len(outs), len(oks))
+
+
 def native_drift(rate):
     """start the REAL release binary with --max-drift-rate <rate>, read the drift it publishes (or its exit status)"""
     tdir = common.mir_target_dir('dbin')
@@ -339,7 +394,15 @@ def run_check(tier, seed):
     ck.cov['functions_encoded'] = ['main (clockbound binary, release profile MIR): slice of the first argument of thread_manager::run']
     ck.cov['slice_locals'] = info['slice_locals']; ck.cov['slice_steps'] = info['steps']
     ck.cov['mir_dump_s'] = round(mir_wall, 1)
-    ck.cov['stubs'] = ['Cli::parse(): returns a Cli whose max_drift_rate is an arbitrary Option<u32>; every statement outside the slice (clap, tracing set-up, PHC options) is skipped']
+    ck.cov['stubs'] = ['Cli::parse(): returns a Cli whose max_drift_rate is an arbitrary Option of its declared type (an Ok value of the value_parser function of the option when it has one); every statement outside the slice (clap, tracing set-up, PHC options) is skipped']
+    try:
+        opc = option_parser_constraint(prog, rate, some)
+        if opc:
+            pr.add(opc[0]); pr.add(opc[1])
+            ck.cov['functions_encoded'].append('clap value parser of --max-drift-rate: ' + opc[2])
+            ck.cov['stubs'].append('str::parse::<f32|f64> inside the value parser: returns an arbitrary float or an error')
+    except EngineError as e:
+        ck.inconclusive.append('value parser of --max-drift-rate not executable: %s' % e)
     if info['mutable_borrows']:
         ck.inconclusive.append('a slice local is mutably borrowed in main (%s): the slice may be incomplete' % (info['mutable_borrows'][:2],))
     if not hits:
@@ -426,7 +489,15 @@ def run_check(tier, seed):
         ck.cov['functions_encoded'] += ['thread_manager::run (prefix: closure captures)', 'thread_manager::run::{closure#1}', 'shm_writer::run']
     except EngineError as e:
         ck.inconclusive.append('rate hand-over inside the daemon: %s' % e)
-    # the record's max_drift_ppb reaches the segment on every write(), also on a segment a previous daemon left behind
+    # from the updater into every record it publishes (all histories of <= H outcomes through the real updater)
+    try:
+        from .daemon_updater import drift_published_part
+        Hd = drift_published_part(ck, dprog, seed, tier)
+        ck.cov['functions_encoded'].append('ShmUpdater::{process_clock_update, process_missing_clock_update, write_clock_error_bound}: max_drift_ppb of every published record (histories of <= %d outcomes)' % Hd)
+    except EngineError as e:
+        ck.inconclusive.append('rate in the published records: %s' % e)
+    except NameError:
+        ck.inconclusive.append('rate in the published records: daemon program not loaded')
     try:
         from .seqlock_model import Programs
         from .client_now import load_shm_program
